@@ -69,6 +69,12 @@ def handle (words : List String) : String :=
     match hexDecode wire, parseCmd m args with
     | some w, some c => if Spec.Wire.bytesOk (verbOf c) w then "ok" else "fail"
     | _, _ => "bad-op"
+  | ["frames", h] =>
+    match hexDecode h with
+    | some b =>
+      let fs := recvFrames b
+      if fs.isEmpty then "_" else ",".intercalate (fs.map fun f => if f.isEmpty then "-" else hexEncode f)
+    | none => "bad-op"
   | ["parse", h, tb] =>
     match hexDecode h, tableDecode tb with
     | some b, some t =>
